@@ -41,7 +41,7 @@ def check(run: Run) -> None:
     ]:
         run.rule(rid, text)
     w = World(run.src)
-    f = Fn(w, CONV, "convert_to")
+    f = Fn(w, CONV, "convert_to", inline=True)
     run.require(f.params[:2] == ["value", "target_unit"], "convert_to parameters changed")
     rets = f.cfg.returns()
     run.require(bool(rets), "convert_to has no return")
@@ -84,7 +84,7 @@ def check(run: Run) -> None:
     run.sample({"function": f.qual, "returns": [norm(r.ast, 80) for r in rets]})
 
     # ---- U3
-    g = Fn(w, CONV, "convert_to_si")
+    g = Fn(w, CONV, "convert_to_si", inline=True)
     for r in g.cfg.returns():
         run.ob("U3", "convert_to_si")
         v = r.ast.value
@@ -96,7 +96,7 @@ def check(run: Run) -> None:
                 and not any(isinstance(x, ast.BinOp) for e in s1.exprs for x in ast.walk(e))
         if not ok:
             run.violate("U3", f"{g.qual}:target", g.mod, r.ast, "convert_to_si does not return convert_to(value, dimension_to_si_unit(value.dimension))")
-    g2 = Fn(w, CONV, "convert_to_float")
+    g2 = Fn(w, CONV, "convert_to_float", inline=True)
     for r in g2.cfg.returns():
         run.ob("U3", "convert_to_float")
         v = r.ast.value
@@ -177,7 +177,7 @@ def check(run: Run) -> None:
             v = r.ast.value
             if name == "from_kelvin" and isinstance(v, ast.Call) and dotted(v.func) == "Celsius" and len(v.args) == 1:
                 v = v.args[0]
-            aff = _affine(v, fn.params[0])
+            aff = _affine(v, fn.params[0], fn, r)
             if aff is None or aff != expected:
                 run.violate("U5", f"{fn.qual}:affine", fn.mod, r.ast, f"{name} returns `{norm(r.ast.value, 60)}`; expected x {'+' if expected > 0 else '-'} Celsius.CELSIUS_TO_KELVIN_OFFSET")
     tq = Fn(w, CEL, "to_kelvin_quantity")
@@ -282,10 +282,31 @@ def _inline(f: Fn, n, e: ast.AST):
     return e
 
 
-def _affine(v: ast.AST, param: str):
-    """+1 for <param-derived> + OFFSET, -1 for <param-derived> - OFFSET, None otherwise"""
+def _resolve_local(fn, node, e: ast.AST, depth: int = 3) -> ast.AST:
+    """a local name bound exactly once (as seen from `node`) stands for its defining expression"""
+    while depth > 0 and isinstance(e, ast.Name):
+        ds = fn.cfg.reaching().get(node, {}).get(e.id)
+        if not ds or len(ds) != 1:
+            break
+        dn = next(iter(ds))
+        if not (dn.kind == "stmt" and isinstance(dn.ast, (ast.Assign, ast.AnnAssign)) and getattr(dn.ast, "value", None) is not None):
+            break
+        tg = dn.ast.targets if isinstance(dn.ast, ast.Assign) else [dn.ast.target]
+        if not (len(tg) == 1 and isinstance(tg[0], ast.Name)):
+            break
+        e, node = dn.ast.value, dn
+        depth -= 1
+    return e
+
+
+def _affine(v: ast.AST, param: str, fn=None, node=None):
+    """+1 for <param-derived> + OFFSET, -1 for <param-derived> - OFFSET, None otherwise (locals bound once are looked through)"""
+    if fn is not None:
+        v = _resolve_local(fn, node, v)
     if isinstance(v, ast.BinOp) and isinstance(v.op, (ast.Add, ast.Sub)):
         l, r = v.left, v.right
+        if fn is not None:
+            l, r = _resolve_local(fn, node, l), _resolve_local(fn, node, r)
         is_off = lambda x: dotted(x) in ("Celsius.CELSIUS_TO_KELVIN_OFFSET", )
         is_par = lambda x: dotted(x) in (param, f"{param}.value")
         if is_par(l) and is_off(r):
